@@ -144,9 +144,9 @@ def gen_call(rng, want_valid):
             V, kind = _singular_rotation(rng), 'singular'      # valid input on which the function itself may raise
         args = {'U': V.tolist()}
         if api == 'u_to_ubi':
-            args['cell'] = gens.cell(rng)[0]
+            args['cell'] = gens.cell(rng, scaled=True)[0]
     elif api in ('ubi_to_u', 'ubi_to_u_and_eps', 'ub_to_u_b', 'ubi_to_rod', 'ubi_to_u_b'):
-        cell = gens.cell(rng)[0]
+        cell = gens.cell(rng, scaled=True)[0]
         U = _good_rotation(rng)
         if want_valid and rng.random() < 0.25:
             U = _singular_rotation(rng)
@@ -419,7 +419,7 @@ def _ubi_cases(rng, n):
     cases, skipped = [], 0
     for i in range(n):
         U, _ = gens.rotation(rng)
-        M = np.linalg.inv(U @ _bmat(tools, gens.cell(rng)[0])) * TWO_PI
+        M = np.linalg.inv(U @ _bmat(tools, gens.cell(rng, scaled=True)[0])) * TWO_PI
         M = _valid_variant(rng, M, rng.choice(['exact', 'f32', 'pert']))
         r = rng.random()
         if r < 0.25:
